@@ -5,7 +5,7 @@ from .common import *
 TWO = ['nosimd', 'ssse3', 'avx2', 'neon', 'default']
 
 
-def gen_fft_cases(rng, n, big=2):
+def gen_fft_cases(rng, n, big=2, unaligned=False):
     """one logical case = the same primitive call on every engine"""
     groups = []
     for t in range(n):
@@ -23,6 +23,12 @@ def gen_fft_cases(rng, n, big=2):
         # skew_delta: multiple of size, skew index r + dist + sd - 1 <= 65534
         maxmul = (65536 - size) // size
         sd = size * rng.choice([0, 1, 1, 2, maxmul, rng.randint(0, maxmul)])
+        if unaligned and rng.random() < 0.25:
+            # not chunk-aligned: outside what the codecs use, but inside the skew table (engines must still agree)
+            sd = rng.randint(0, 65535 - size)
+            if rng.random() < 0.6:
+                # aim at the table entries that hold GF_MODULUS (index 2^j - 1): exercises the xor-only butterfly branches
+                sd = min(max(0, 2 ** rng.randint(0, 15) - 1 - rng.randint(0, size)), 65535 - size)
         which = rng.choice(['P.fft', 'P.ifft'])
         seed = rng.randint(1, 2 ** 40)
         zero_tail = which == 'P.ifft' and rng.random() < 0.5
@@ -265,7 +271,7 @@ def e2e_engine_groups(rng, n):
 
 def check_C03(v, tier, rng):
     q = tier == 'quick'
-    groups = gen_fft_cases(rng, 260 if q else 6000, big=2 if q else 20)
+    groups = gen_fft_cases(rng, 320 if q else 6000, big=2 if q else 20, unaligned=True)
     run_fft_groups(v, groups, 'C03fft', ENGINES)
     mc = gen_mul_cases(rng, 250 if q else 8000, ENGINES)
     impl = run_cases('impl', mc, 'C03mul')
